@@ -2,6 +2,9 @@
 """Prints the prompt handed to a fresh sub-agent for one property (text of the property only, nothing from /verif)."""
 import json, sys
 pid, port = sys.argv[1], sys.argv[2]
+letters = sys.argv[3] if len(sys.argv) > 3 else "A,B"   # names of the two changes
+emph = sys.argv[4] if len(sys.argv) > 4 else ""   # optional extra steering (generic, nothing from /verif)
+LA, LB = letters.split(",")
 p = next(json.loads(l) for l in open('/verif/properties.jsonl') if json.loads(l)['id'] == pid)
 wt = f"/tmp/wt-{pid}"
 print(f"""You are helping to evaluate a verification tool for the Go RPC framework henrylee2cn/teleport (eRPC v6, module github.com/henrylee2cn/erpc/v6). You have your own scratch git worktree of the repository at {wt} . Work ONLY inside {wt} (never touch /repo or /verif, do not read /verif).
@@ -12,7 +15,7 @@ Here is a semantic property of the framework that is supposed to hold:
   Statement: {p['statement']}
   It must hold: {p['quantifier']['text']}
 
-YOUR TASK: produce TWO different, independent, realistic source changes ("A" and "B") to the framework (non-test .go files in {wt}) such that each change BREAKS this property, while the code still compiles and the existing tests still pass. Think of the kind of regression a maintainer could plausibly introduce in a refactor, optimisation or "cleanup" (moving a statement, dropping a lock or a check, reordering two calls, reusing a buffer, forgetting a reset, weakening a condition, using the wrong variable ...). Prefer subtle changes that need something specific to manifest - a particular interleaving, a fault at a particular point, a multi-step sequence of operations, an unusual input, or two cooperating sites that each look fine alone - NOT changes that any ordinary use would expose at once. Keep each change small (a few lines; at most ~30). A and B should be in different functions/mechanisms if possible.
+YOUR TASK: produce TWO different, independent, realistic source changes ("{LA}" and "{LB}") to the framework (non-test .go files in {wt}) such that each change BREAKS this property, while the code still compiles and the existing tests still pass. Think of the kind of regression a maintainer could plausibly introduce in a refactor, optimisation or "cleanup" (moving a statement, dropping a lock or a check, reordering two calls, reusing a buffer, forgetting a reset, weakening a condition, using the wrong variable ...). Prefer subtle changes that need something specific to manifest - a particular interleaving, a fault at a particular point, a multi-step sequence of operations, an unusual input, or two cooperating sites that each look fine alone - NOT changes that any ordinary use would expose at once. Keep each change small (a few lines; at most ~30). {LA} and {LB} should be in different functions/mechanisms if possible. {emph}
 
 For each change also write a DEMONSTRATION: a Go test (or small program) that FAILS with the change applied and PASSES on the unchanged code, showing the property violation through the public API / observable behaviour. If an interleaving is needed you may force it in the demo with sleeps, hooks through plugins, custom net.Conn wrappers, etc. (the demo may be as contrived as needed; the source change must not be).
 
@@ -24,8 +27,8 @@ Environment facts (important):
 - For your own demos use TCP ports in the range {port}-{int(port)+40} on 127.0.0.1 only (other agents use other ranges). PeerConfig has ListenPort / LocalIP etc; see README.md and the *_test.go files for how to start a server peer (erpc.NewPeer(erpc.PeerConfig{{ListenPort: ...}}); go srv.ListenAndServe()) and a client peer (cli.Dial(":port")).
 - Demonstration tests may live in the root package directory (package erpc_test or package erpc for white-box access) or in a new directory; they are not part of the patch.
 
-DELIVERABLES - create directory {wt}/_seed/ containing, for X in {{A,B}}:
+DELIVERABLES - create directory {wt}/_seed/ containing, for X in {{{LA},{LB}}}:
   _seed/X/patch.diff    - `git diff` of ONLY the framework source change (apply-able with `git apply` on a clean checkout of HEAD; no demo files, no go.mod)
   _seed/X/demo/         - the demonstration file(s), with the relative path where each must be placed noted in NOTES.md
   _seed/X/NOTES.md      - which clause of the property breaks, what is needed for it to manifest (interleaving / input / sequence), exact commands to run the demo, and the observed output with and without the change
-Verify yourself, starting from a clean tree (git stash / git checkout -- . as needed, keep _seed/ untracked): (1) without the patch the demo passes, (2) with the patch the code compiles, the 5 pinned test packages pass, and the demo fails. Leave the worktree CLEAN (source reverted, demo files only under _seed/) when you finish. In your final answer, summarise A and B in a few lines each (file, function, what was changed, how it manifests).""")
+Verify yourself, starting from a clean tree (git stash / git checkout -- . as needed, keep _seed/ untracked): (1) without the patch the demo passes, (2) with the patch the code compiles, the 5 pinned test packages pass, and the demo fails. Leave the worktree CLEAN (source reverted, demo files only under _seed/) when you finish. In your final answer, summarise {LA} and {LB} in a few lines each (file, function, what was changed, how it manifests).""")
